@@ -182,7 +182,11 @@ class Processor(ABC):
             materialization.
         """
         if original.payload is not None:
-            return original, True
+            # Only the payload of a materialization (or of a leaf, which is
+            # materialized by definition) is known to be suitable for caching;
+            # any other payload (e.g. a lazy iterable attached to a marker)
+            # still has to go through the materialize hook.
+            return original, isinstance(original, (LeafRelation, Materialization))
         result: Relation
         payload: Any = None
         match original:
